@@ -268,6 +268,33 @@ class FsExecutor(object):
             self.flags.add('positional_then_sequential')
         self.check_position(fd)
 
+    def limited_write(self, fd, bufs, offset, limit):
+        """one fd_write (offset None) / fd_pwrite under a soft file-size limit of `limit` bytes (RLIMIT_FSIZE, SIGXFSZ ignored) that
+        is in force for the agent and, during the mirror call, for this process: a transfer that crosses the limit is a short
+        write, one that starts at or beyond it fails with EFBIG - whatever writev(2) / pwritev(2) say"""
+        import resource
+        d = self.fds[fd]
+        if d['closed'] or d['kind'] != 'file' or d.get('chr'):
+            return
+        self.record('limited_write', fd, [b.hex() for b in bufs], offset, limit)
+        mark = len(self.history)
+        soft, hard = resource.getrlimit(resource.RLIMIT_FSIZE)
+        self.agent.fsize(limit)
+        resource.setrlimit(resource.RLIMIT_FSIZE, (limit, hard))
+        try:
+            if offset is None:
+                self.fd_write(fd, bufs)
+            else:
+                self.fd_pwrite(fd, bufs, offset)
+        finally:
+            resource.setrlimit(resource.RLIMIT_FSIZE, (soft, hard))
+            del self.history[mark:]
+            try:
+                self.agent.fsize(None)
+            except AgentDied:
+                pass
+        self.flags.add('write_at_file_size_limit')
+
     def _dev_offset(self, fd, offset):
         # positional I/O at the far end of the offset range of a character device (/dev/null accepts any seek) is left out:
         # the lseek-based emulation and pread(2)/pwrite(2) legitimately differ there and no realistic caller depends on it
@@ -938,7 +965,7 @@ def replay_history(history, npreopen=1, extra=None):
                 op, args = step[0], step[1:]
                 if op == 'agent_variant':
                     continue
-                if op in ('fd_write', 'fd_pwrite'):
+                if op in ('fd_write', 'fd_pwrite', 'limited_write'):
                     args = [args[0], [bytes.fromhex(h) for h in args[1]]] + list(args[2:])
                 args = [bytes.fromhex(x['hex']) if isinstance(x, dict) and 'hex' in x else x for x in args]
                 m = getattr(ex, op, None) or (extra or {}).get(op)
